@@ -30,6 +30,8 @@ def op_coq(o):
         return "(OGetRef %s %s)" % (L.zlist(o[1]), w_coq(o[2]))
     if k == "get":
         return "(OGet %s)" % L.zlist(o[1])
+    if k == "getd":
+        return "(OGetD %s %s)" % (L.zlist(o[1]), L.z(o[2]))
     if k == "append":
         return "(OAppend %s %s %s)" % (L.zlist(o[1]), L.z(o[2]), L.z(o[3]))
     if k == "setitem":
@@ -108,6 +110,9 @@ def gen_case(rng, kinds, maxlen=10, depths=(1, 2, 2, 3)):
         elif k == "get":
             ln = rng.choice([n, n, rng.randint(1, n)])
             ops.append(["get", (path + [coord() for _ in range(n)])[:ln]])
+        elif k == "getd":
+            ln = rng.choice([n, n, rng.randint(1, n)])
+            ops.append(["getd", (path + [coord() for _ in range(n)])[:ln], rng.choice([-1, 7, d])])
         elif k == "append":
             p = (path + [coord() for _ in range(n)])[:n - 1]
             ops.append(["append", p, rng.randint(0, 14), rng.choice([d, 1, 3, 8])])
@@ -143,9 +148,9 @@ def gen_case(rng, kinds, maxlen=10, depths=(1, 2, 2, 3)):
     return {"n": n, "d": d, "tree": tree, "ops": ops}
 
 
-ALL_KINDS = ["getref", "getref", "get", "append", "setitem", "setitem", "clear", "updcoords", "updtbl", "updtbl", "updpay",
+ALL_KINDS = ["getref", "getref", "get", "getd", "append", "setitem", "setitem", "clear", "updcoords", "updtbl", "updtbl", "updpay",
              "shaperef", "getpos", "getposref", "getsp", "getrefsp"]
-ACCESS_KINDS = ["getref", "getref", "getref", "get", "get", "getpos", "getposref", "getsp", "getrefsp"]
+ACCESS_KINDS = ["getref", "getref", "getref", "get", "get", "getd", "getd", "getpos", "getposref", "getsp", "getrefsp"]
 
 
 def shrinks(case):
@@ -275,6 +280,11 @@ def do_op(T, n, o):
         if not (1 <= len(pt) <= n):
             return [2]
         return [0, pay_obs(T.getPayload(*pt))]
+    if k == "getd":
+        pt = o[1]
+        if not (1 <= len(pt) <= n):
+            return [2]
+        return [0, pay_obs(T.getPayload(*pt, default=o[2], allocate=False))]
     path = o[1]
     f = resolve(root, path)
     if k == "append":
